@@ -18,6 +18,7 @@ import (
 	"math/rand"
 	"os"
 	"path/filepath"
+	"regexp"
 	"sort"
 	"strings"
 	"testing/fstest"
@@ -66,10 +67,10 @@ func parseInit(path string) (*mp4.InitSegment, error) {
 }
 
 type parsedSeg struct {
-	Tfdt   uint64
-	Seq    uint32
-	Frames []frame
-	NFrag  int
+	Tfdt        uint64
+	Seq         uint32
+	Frames      []frame
+	NFrag       int
 	TfhdDefault uint32 // default_sample_duration in the tfhd of the last fragment, 0 if absent
 }
 
@@ -166,15 +167,16 @@ type assetDesc struct {
 	// AudioRep / RefRep: representation ids of the audio track under test and of the reference track, for assets
 	// whose reference is an audio track itself (no video); empty = first audio / first video adaptation set
 	AudioRep, RefRep string
-	Name      string // label used in case inputs and Coq definitions
-	Scratch   bool
-	URLPath   string
-	MPD       string
-	Dir       string // directory of the asset below the vod root
-	AudioInit string
-	AudioGlob string
-	VideoInit string
-	VideoGlob string
+	Light            bool   // fewer segment runs (the asset differs from another one only in the shape of its VoD MPD, or is one of several tracks of one asset)
+	Name             string // label used in case inputs and Coq definitions
+	Scratch          bool
+	URLPath          string
+	MPD              string
+	Dir              string // directory of the asset below the vod root
+	AudioInit        string
+	AudioGlob        string
+	VideoInit        string
+	VideoGlob        string
 }
 
 const wavePath = "WAVE/vectors/cfhd_sets/14.985_29.97_59.94/t1/2022-10-17"
@@ -389,12 +391,81 @@ func genAssets(rng *rand.Rand, nRand int) []lib.GenAsset {
 	return out
 }
 
+// mpdShapes: bundled assets copied into the scratch vodroot with the VoD MPD written in another legitimate
+// shape: no contentType attribute (the content type has to be derived from mimeType / codecs), audio
+// adaptation set listed before or after the video one. What is served and listed must not depend on that.
+func mpdShapes(root string) ([]assetDesc, []string) {
+	var out []assetDesc
+	var notes []string
+	asRe := regexp.MustCompile(`(?s)[ \t]*<AdaptationSet\b.*?</AdaptationSet>\s*\n`)
+	ctRe := regexp.MustCompile(` contentType="[^"]*"`)
+	for _, src := range []string{"testpic_6s", "testpic_alt_seg_dur_stl"} {
+		mpd, err := os.ReadFile(filepath.Join(lib.TestVodRoot, src, "Manifest.mpd"))
+		if err != nil {
+			notes = append(notes, "mpd shapes: "+err.Error())
+			continue
+		}
+		blocks := asRe.FindAllString(string(mpd), -1)
+		loc := asRe.FindAllStringIndex(string(mpd), -1)
+		if len(blocks) != 2 {
+			notes = append(notes, fmt.Sprintf("mpd shapes: %s has %d adaptation sets, not used", src, len(blocks)))
+			continue
+		}
+		head, tail := string(mpd)[:loc[0][0]], string(mpd)[loc[1][1]:]
+		audio, video := blocks[0], blocks[1]
+		if strings.Contains(video, "audio/mp4") {
+			audio, video = video, audio
+		}
+		for _, sh := range []struct {
+			name       string
+			audioFirst bool
+			noCT       bool
+			noMime     bool
+		}{{"nctaf", true, true, false}, {"nctvf", false, true, false}, {"codaf", true, true, true}} {
+			a, v := audio, video
+			if sh.noCT {
+				a, v = ctRe.ReplaceAllString(a, ""), ctRe.ReplaceAllString(v, "")
+			}
+			if sh.noMime {
+				a, v = strings.ReplaceAll(a, ` mimeType="audio/mp4"`, ""), strings.ReplaceAll(v, ` mimeType="video/mp4"`, "")
+			}
+			body := head + a + v + tail
+			if !sh.audioFirst {
+				body = head + v + a + tail
+			}
+			name := strings.ReplaceAll(src, "testpic_", "tp") + "_" + sh.name
+			name = strings.ReplaceAll(name, "_seg_dur_stl", "")
+			dir := filepath.Join(root, name)
+			failed := false
+			for _, sub := range []string{"A48", "V300"} {
+				files, _ := filepath.Glob(filepath.Join(lib.TestVodRoot, src, sub, "*"))
+				for _, f := range files {
+					if err := copyFile(f, filepath.Join(dir, sub, filepath.Base(f))); err != nil {
+						failed = true
+					}
+				}
+			}
+			if failed || os.WriteFile(filepath.Join(dir, "Manifest.mpd"), []byte(body), 0o644) != nil {
+				notes = append(notes, "mpd shapes: could not write "+name)
+				continue
+			}
+			out = append(out, assetDesc{Name: name, Scratch: true, Light: true, URLPath: name, MPD: "Manifest.mpd", Dir: name,
+				AudioInit: "A48/init.mp4", AudioGlob: "A48/*.m4s", VideoInit: "V300/init.mp4", VideoGlob: "V300/*.m4s"})
+		}
+	}
+	return out, notes
+}
+
 // audioOnlyAssets: assets without video. The first audio representation is the reference; every further audio
 // representation (other frame size, other segmentation) has to follow ITS segment boundaries, and the
 // reference itself is re-segmented along its own boundaries (identity).
 func audioOnlyAssets(rng *rand.Rand, nRand int) []lib.GenAsset {
-	ac3 := func(id string, frames ...int) lib.GenRep { return lib.AudioRep(id, 1536, lib.FrameDurs(1536, frames...)) }
-	aac := func(id string, frames ...int) lib.GenRep { return lib.AudioRep(id, 1024, lib.FrameDurs(1024, frames...)) }
+	ac3 := func(id string, frames ...int) lib.GenRep {
+		return lib.AudioRep(id, 1536, lib.FrameDurs(1536, frames...))
+	}
+	aac := func(id string, frames ...int) lib.GenRep {
+		return lib.AudioRep(id, 1024, lib.FrameDurs(1024, frames...))
+	}
 	out := []lib.GenAsset{
 		// AAC reference (4 x ~2 s), AC-3 on its own grid, AAC in one 8 s segment
 		{Name: "gao1", Reps: []lib.GenRep{aac("A1", 94, 94, 94, 93), ac3("A2", 62, 63, 62, 63), aac("A3", 375)}},
@@ -431,8 +502,7 @@ func audioOnlyAssets(rng *rand.Rand, nRand int) []lib.GenAsset {
 }
 
 func buildScratch(root string, rng *rand.Rand, nRand int) ([]assetDesc, []string, error) {
-	var out []assetDesc
-	var notes []string
+	out, notes := mpdShapes(root)
 	for _, ga := range audioOnlyAssets(rng, (nRand+2)/3) {
 		if ok, why := ga.PredictAdmission(); !ok {
 			notes = append(notes, fmt.Sprintf("generated asset %s not used (%s)", ga.Name, why))
@@ -444,7 +514,7 @@ func buildScratch(root string, rng *rand.Rand, nRand int) ([]assetDesc, []string
 		}
 		ref := ga.Reps[0].ID
 		for _, rp := range ga.Reps {
-			out = append(out, assetDesc{Name: ga.Name + "_" + rp.ID, Scratch: true, URLPath: ga.Name, MPD: "Manifest.mpd", Dir: ga.Name,
+			out = append(out, assetDesc{Name: ga.Name + "_" + rp.ID, Scratch: true, Light: rp.ID != ga.Reps[1].ID, URLPath: ga.Name, MPD: "Manifest.mpd", Dir: ga.Name,
 				AudioRep: rp.ID, RefRep: ref,
 				AudioInit: rp.ID + "/init.mp4", AudioGlob: rp.ID + "/*.m4s", VideoInit: ref + "/init.mp4", VideoGlob: ref + "/*.m4s"})
 		}
@@ -702,6 +772,8 @@ type tmpl struct {
 	startNr                          int64
 	audioTL, videoTL                 []*m.S
 	audioTS, videoTS                 uint64
+	audioPTO, videoPTO               uint64
+	audioStartNr                     int64 // startNumber of the audio template, -1 if absent
 }
 
 func fillT(t, rep string, v uint64) string {
@@ -723,6 +795,47 @@ func (as *assetState) mpdURL(prefix string, nowMS int64) string {
 	return fmt.Sprintf("/livesim2/%s%s/%s?nowMS=%d", prefix, as.d.URLPath, as.d.MPD, nowMS)
 }
 
+// periodTmpl extracts the audio track under test and the reference track from one Period of a live MPD.
+func (as *assetState) periodTmpl(p *m.Period) *tmpl {
+	t := &tmpl{audioStartNr: -1}
+	for _, a := range p.AdaptationSets {
+		st := a.SegmentTemplate
+		if st == nil || len(a.Representations) == 0 {
+			continue
+		}
+		ts := uint64(1)
+		if st.Timescale != nil {
+			ts = uint64(*st.Timescale)
+		}
+		var tl []*m.S
+		if st.SegmentTimeline != nil {
+			tl = st.SegmentTimeline.S
+		}
+		var pto uint64
+		if st.PresentationTimeOffset != nil {
+			pto = uint64(*st.PresentationTimeOffset)
+		}
+		rid := a.Representations[0].Id
+		isAudio, isRef := string(a.ContentType) == "audio", string(a.ContentType) == "video"
+		if as.d.RefRep != "" {
+			isAudio, isRef = rid == as.d.AudioRep, rid == as.d.RefRep
+		}
+		if isAudio && t.audio == "" {
+			t.audio, t.audioRep, t.audioTL, t.audioTS, t.audioPTO = st.Media, rid, tl, ts, pto
+			if st.StartNumber != nil {
+				t.audioStartNr = int64(*st.StartNumber)
+			}
+		}
+		if isRef && t.video == "" {
+			t.video, t.videoRep, t.videoTL, t.videoTS, t.videoPTO = st.Media, rid, tl, ts, pto
+			if st.StartNumber != nil {
+				t.startNr = int64(*st.StartNumber)
+			}
+		}
+	}
+	return t
+}
+
 func (as *assetState) getTmpl(prefix string, nowMS int64) (*tmpl, error) {
 	resp := as.ls.GetRaw(as.mpdURL(prefix, nowMS))
 	if resp.Status != 200 {
@@ -732,38 +845,10 @@ func (as *assetState) getTmpl(prefix string, nowMS int64) (*tmpl, error) {
 	if err != nil {
 		return nil, err
 	}
-	t := &tmpl{}
-	for _, p := range mp.Periods {
-		for _, a := range p.AdaptationSets {
-			st := a.SegmentTemplate
-			if st == nil || len(a.Representations) == 0 {
-				continue
-			}
-			ts := uint64(1)
-			if st.Timescale != nil {
-				ts = uint64(*st.Timescale)
-			}
-			var tl []*m.S
-			if st.SegmentTimeline != nil {
-				tl = st.SegmentTimeline.S
-			}
-			rid := a.Representations[0].Id
-			isAudio, isRef := string(a.ContentType) == "audio", string(a.ContentType) == "video"
-			if as.d.RefRep != "" {
-				isAudio, isRef = rid == as.d.AudioRep, rid == as.d.RefRep
-			}
-			if isAudio && t.audio == "" {
-				t.audio, t.audioRep, t.audioTL, t.audioTS = st.Media, rid, tl, ts
-			}
-			if isRef && t.video == "" {
-				t.video, t.videoRep, t.videoTL, t.videoTS = st.Media, rid, tl, ts
-				if st.StartNumber != nil {
-					t.startNr = int64(*st.StartNumber)
-				}
-			}
-		}
-		break
+	if len(mp.Periods) == 0 {
+		return nil, fmt.Errorf("MPD of %s has no period", as.d.Name)
 	}
+	t := as.periodTmpl(mp.Periods[0])
 	if t.audio == "" || t.video == "" {
 		return nil, fmt.Errorf("MPD of %s has no audio+video templates", as.d.Name)
 	}
@@ -1171,6 +1256,133 @@ func (r *run) timelineRun(as *assetState, prefix string, nowMS int64, nFetch int
 	}
 }
 
+type perIn struct {
+	Kind   string `json:"kind"`
+	Asset  string `json:"asset"`
+	URL    string `json:"url"`
+	Single string `json:"single_period_url"`
+	Period string `json:"period,omitempty"`
+}
+
+// periodsRun: the MPD cut into periods (periods_N). The audio SegmentTimeline must still list exactly the
+// served segments: in every period the audio entries are the frame-aligned images of the video entries of that
+// period (same count, same startNumber, none before the period's presentationTimeOffset), and the periods
+// together list every audio segment of the single-period MPD of the same instant exactly once, abutting.
+// Period boundaries lie on the audio frame grid or off it, depending on the frame duration and the minute.
+func (r *run) periodsRun(as *assetState, prefix string, nowMS int64, periods int) {
+	c := r.c
+	pp := fmt.Sprintf("periods_%d/", periods)
+	in := perIn{Kind: "periods", Asset: as.d.Name, URL: as.mpdURL(pp+prefix, nowMS), Single: as.mpdURL(prefix, nowMS)}
+	single, err := as.getTmpl(prefix, nowMS)
+	if err != nil {
+		return // reported by timelineRun
+	}
+	resp := as.ls.GetRaw(in.URL)
+	if resp.Panic != "" {
+		c.Fail("", "mpd-panic:"+resp.Panic, "the multi-period MPD request panics", in)
+		return
+	}
+	if resp.Status == 400 && strings.Contains(string(resp.Body), "not a multiple of segment duration") {
+		// documented restriction of the configuration (period length must be a whole number of segments): try longer periods
+		c.Count("l1:" + as.d.Name + ":periods-config-refused")
+		if periods%2 == 0 && periods > 4 {
+			r.periodsRun(as, prefix, nowMS, periods/2)
+		}
+		return
+	}
+	if resp.Status != 200 {
+		c.Fail("", fmt.Sprintf("periods-mpd-status-%d", resp.Status), "multi-period MPD not served: "+strings.TrimSpace(string(resp.Body)), in)
+		return
+	}
+	mp, err := m.MPDFromBytes(resp.Body)
+	if err != nil {
+		c.Fail("", "periods-mpd-unparsable", err.Error(), in)
+		return
+	}
+	c.Count("l1:" + as.d.Name + ":periods-mpd")
+	var all []td
+	ok := true
+	for _, p := range mp.Periods {
+		t := as.periodTmpl(p)
+		pin := in
+		pin.Period = p.Id
+		if t.audio == "" || t.video == "" {
+			c.Fail("", "period-tracks", "period without audio or reference template", pin)
+			return
+		}
+		v, a := expandTL(t.videoTL), expandTL(t.audioTL)
+		if len(v) != len(a) {
+			c.Fail("", "period-audio-count", fmt.Sprintf("period %s lists %d audio segments and %d reference segments", p.Id, len(a), len(v)), pin)
+			ok = false
+		}
+		for k := range a {
+			if k >= len(v) {
+				break
+			}
+			es, ee := ceilFrame(v[k].T, as.R, as.F, as.A), ceilFrame(v[k].T+v[k].D, as.R, as.F, as.A)
+			if a[k].T != es || a[k].D != ee-es {
+				c.Fail("", "period-audio-timeline", fmt.Sprintf("period %s: audio entry %d is (t=%d,d=%d), reference entry (t=%d,d=%d) gives (t=%d,d=%d)", p.Id, k, a[k].T, a[k].D, v[k].T, v[k].D, es, ee-es), pin)
+				ok = false
+				break
+			}
+		}
+		if len(a) > 0 && a[0].T < t.audioPTO {
+			c.Fail("", "period-audio-before-pto", fmt.Sprintf("period %s: first audio segment t=%d lies before presentationTimeOffset %d", p.Id, a[0].T, t.audioPTO), pin)
+			ok = false
+		}
+		if t.audioStartNr >= 0 && t.audioStartNr != t.startNr {
+			c.Fail("", "period-startnr", fmt.Sprintf("period %s: audio startNumber %d, reference startNumber %d", p.Id, t.audioStartNr, t.startNr), pin)
+			ok = false
+		}
+		all = append(all, a...)
+	}
+	for k := 1; k < len(all); k++ {
+		if all[k].T != all[k-1].T+all[k-1].D {
+			c.Fail("", "period-audio-abut", fmt.Sprintf("over the periods, audio segment (t=%d,d=%d) is followed by one starting at %d", all[k-1].T, all[k-1].D, all[k].T), in)
+			ok = false
+			break
+		}
+	}
+	// the same instant without periods lists the same audio segments (on the common range)
+	sa := expandTL(single.audioTL)
+	byT := map[uint64]uint64{}
+	for _, e := range sa {
+		byT[e.T] = e.D
+	}
+	if len(all) > 0 && len(sa) > 0 {
+		lo, hi := all[0].T, all[len(all)-1].T
+		if sa[0].T > lo {
+			lo = sa[0].T
+		}
+		if sa[len(sa)-1].T < hi {
+			hi = sa[len(sa)-1].T
+		}
+		n1, n2 := 0, 0
+		for _, e := range all {
+			if e.T >= lo && e.T <= hi {
+				n1++
+				if d, found := byT[e.T]; !found || d != e.D {
+					c.Fail("", "period-vs-single", fmt.Sprintf("audio segment (t=%d,d=%d) of the multi-period MPD is not listed by the single-period MPD", e.T, e.D), in)
+					ok = false
+					break
+				}
+			}
+		}
+		for _, e := range sa {
+			if e.T >= lo && e.T <= hi {
+				n2++
+			}
+		}
+		if ok && n1 != n2 {
+			c.Fail("", "period-vs-single", fmt.Sprintf("%d audio segments over the periods, %d in the single-period MPD on the same range", n1, n2), in)
+			ok = false
+		}
+	}
+	if ok {
+		r.distinct[fmt.Sprintf("%s|periods|%s|%d", as.d.Name, prefix, nowMS)] = true
+	}
+}
+
 // historyRun: the served audio segment is a function of (representation, n) alone, so it must not depend on
 // what the same server was asked before. For segment n at the live edge the same long-lived server is asked:
 // clear, then the same segment under another configuration (encrypted cbcs/cenc, low-latency chunked,
@@ -1265,6 +1477,13 @@ func (r *run) l1(states []*assetState) {
 		if thorough {
 			nWrapB, nRand, nFar = 40, 80, 40
 		}
+		if as.d.Light {
+			starts = starts[:0]
+			for n := int64(0); n < N+2; n += int64(L) - 1 {
+				starts = append(starts, n)
+			}
+			nWrapB, nRand, nFar = nWrapB/3, nRand/8, nFar/3
+		}
 		for i := 0; i < nWrapB; i++ {
 			w := int64(3 + r.rng.Intn(400))
 			starts = append(starts, w*N-int64(1+r.rng.Intn(L-1)))
@@ -1299,6 +1518,21 @@ func (r *run) l1(states []*assetState) {
 			}
 			r.historyRun(as, n, vs)
 		}
+		// the MPD cut into periods: boundaries at odd and even minutes (off / on the 1024-sample frame grid), far from the epoch
+		perNow := []int64{1_030_000 + r.rng.Int63n(25_000), 1_090_000 + r.rng.Int63n(25_000),
+			(int64(27_500_000)+r.rng.Int63n(1_600_000))*60_000 + 10_000 + r.rng.Int63n(45_000)}
+		if thorough {
+			for i := 0; i < 12; i++ {
+				perNow = append(perNow, (int64(20)+r.rng.Int63n(30_000_000))*60_000+5_000+r.rng.Int63n(50_000))
+			}
+		}
+		for i, nowMS := range perNow {
+			r.periodsRun(as, "segtimeline_1/", nowMS, 60)
+			r.periodsRun(as, "segtimelinenr_1/", nowMS+3, 60)
+			if thorough && i%3 == 0 {
+				r.periodsRun(as, "segtimeline_1/", nowMS, 30)
+			}
+		}
 		// SegmentTimeline with $Time$ and with $Number$
 		nTL := 5
 		if thorough {
@@ -1325,20 +1559,20 @@ func (r *run) l1(states []*assetState) {
 // ---------------------------------------------------------------- L2: synthetic representations through the hook
 
 type synthIn struct {
-	Kind     string   `json:"kind"`
-	Counts   []int    `json:"counts"`     // frames per VoD audio segment
-	Start0   uint64   `json:"start0"`     // start time of the first segment
-	Gaps     []uint64 `json:"gaps"`       // gap before each segment (normally 0)
-	F        uint32   `json:"frame_dur"`  // sample duration
-	A        uint64   `json:"audio_ts"`   // audio timescale
-	R        uint64   `json:"ref_ts"`     // reference timescale
-	D        uint64   `json:"ref_loop"`   // reference loop duration
-	RefStart uint64   `json:"ref_start"`
-	RefEnd   uint64   `json:"ref_end"`
-	Nr       uint32   `json:"nr"`
+	Kind     string     `json:"kind"`
+	Counts   []int      `json:"counts"`    // frames per VoD audio segment
+	Start0   uint64     `json:"start0"`    // start time of the first segment
+	Gaps     []uint64   `json:"gaps"`      // gap before each segment (normally 0)
+	F        uint32     `json:"frame_dur"` // sample duration
+	A        uint64     `json:"audio_ts"`  // audio timescale
+	R        uint64     `json:"ref_ts"`    // reference timescale
+	D        uint64     `json:"ref_loop"`  // reference loop duration
+	RefStart uint64     `json:"ref_start"`
+	RefEnd   uint64     `json:"ref_end"`
+	Nr       uint32     `json:"nr"`
 	Recipe   *[6]uint64 `json:"recipe,omitempty"` // arbitrary recipe instead of calcAudioSegRecipe
-	InWrap   bool     `json:"in_wrap"`
-	Inner    bool     `json:"inner_interval"`
+	InWrap   bool       `json:"in_wrap"`
+	Inner    bool       `json:"inner_interval"`
 }
 
 func synthFS(in synthIn) (fstest.MapFS, *app.RepData, []vodSeg, error) {
